@@ -1,6 +1,7 @@
 package rules
 
 import (
+	"fmt"
 	"go/ast"
 	"go/token"
 	"go/types"
@@ -363,7 +364,12 @@ func (x *c13Exec) evalBuiltin(st *c13State, fr *c13Fr, name string, call *ast.Ca
 				one(s, x.un(c13OpAddr, x.sym("new "+c13TypeKey(typ), typ)))
 				return
 			}
-			one(s, x.nary(c13OpMake, "", typ, args))
+			// every evaluation of make is a distinct allocation
+			x.nextCell++
+			mk := x.nary(c13OpMake, "", typ, args)
+			mk.id = x.nextCell
+			mk.key = fmt.Sprintf("%s#%d", mk.key, mk.id)
+			one(s, mk)
 		})
 	case "len", "cap":
 		x.eval(st, fr, call.Args[0], func(s *c13State, a *c13Term) {
